@@ -380,7 +380,11 @@ class RunLengthArray(NPSIndexable, np.lib.mixins.NDArrayOperatorsMixin):
         return self._apply_binary_func(*inputs, ufunc)
 
     def sum(self, axis=-1, out=None):
-        return np.sum(np.diff(self._events)*self._values)
+        lengths = np.diff(self._events)
+        if np.issubdtype(self._values.dtype, np.unsignedinteger):
+            # int64 * uint64 is computed in float64: inexact beyond 2**53, and a float where numpy's sum is uint64
+            lengths = lengths.astype(np.uint64)
+        return np.sum(lengths*self._values)
 
     def any(self, axis=-1, out=None):
         """TODO, this can be sped up by assuming no empty runs"""
